@@ -117,7 +117,7 @@ def main():
     k = 0
     parts = [("BinaryPartition", None), ("RandomBinaryPartition", None), ("DimensionBinaryPartition", None), ("KaryPartition", 3), ("KaryPartition", 4),
              ("RandomKaryPartition", 3)]
-    while time.time() - t0 < a.budget * 0.8 and k < 3000:
+    while time.time() - t0 < a.budget * 0.8 and k < 400 * a.budget:
         k += 1
         part, K = rng.choice(parts)
         dom = rng.choice([[[0, 1]], [[-2.0, 3.0], [1, 2]], [[4096, 4097]]])
